@@ -568,7 +568,7 @@ func gen(o hreg.Opts, w *bufio.Writer) error {
 			"sreset 18446744073709551615", "smsg 0 1 1", "smsg 18446744073709551614 1 1", "smsg 1 1 1", "sreset 18446744073709551615", "sreset 77", "smsg 76 1 1", "smsg 77 1 1", "smsg 78 1 1", "smsg 79 1 1", "smsg 75 1 1",
 		},
 		{
-			"select 1 1,2,3 1:1,3:1", "select 1 1,2,3 -", "select 1 - 1:1", "select 2 3,1,1 1:2,3:2,2:1", "select 1 5 5:1",
+			"select 1 1,2,3 1:1,3:1", "select 1 1,2,3 -", "select 1 - 1:1", "select 2 3,1,1 1:2,3:2,2:1", "select 1 5 5:1", "select 5 1 1:5,1:6", "select 6 1 1:5,1:6", "select 5 1,1,2 1:5,2:5,1:5",
 			"aslash 1 1", "aslash 1 1", "aslash 1 2", "aslashes", "pslash 4 1", "pslash 4 2", "pslash 5 1", "pslashes", "exit 3 9", "exit 3 10", "exit 4 9", "exits",
 			"aslashes", "pslashes", "exits",
 		},
